@@ -58,7 +58,17 @@ def _pending_defs(L, var):
     return out
 
 
+def k9_tool_reads(prog, ctx):
+    """K9: the tool, too, parses with the whole comment set it was given (= C19.U4b): its re-read of an edited file is a parse like any other"""
+    try:
+        from rules import C19 as _C19
+        _C19.u4b_every_read_with_the_options(prog, ctx, rule="K9")
+    except Inconclusive as e:
+        ctx.inconclusive("K9", "the tool reads with the comment set it was given", "", str(e))
+
+
 def run(prog, ctx):
+    k9_tool_reads(prog, ctx)
     L = parser.landmarks(prog)
     f, cfg = L.fn, L.cfg
     ctx.touch(f)
@@ -119,6 +129,19 @@ def run(prog, ctx):
         ok, cut = cfg.all_paths_cut(tb, lambda lit, b, i: classify(lit) == "good", start=L.header)
         inst = "comment line recognised by its first non-blank character (%s)" % render(st)[:50]
         if ok and cut:
+            # strchr(set, c) also "finds" c == 0 (the terminator of the set): the test is a membership test only for a character that is
+            # there - a blank-only line leaves the cursor on the NUL
+            uses_search = any(cfg.edge_lit(b9, i9) is not None and cfg.edge_lit(b9, i9).kind == "truth" and cfg.edge_lit(b9, i9).node.k == "CallExpr"
+                              and classify(cfg.edge_lit(b9, i9)) == "good" for (b9, i9) in cut)
+            okz, cutz = cfg.all_paths_cut(tb, lambda lit, b, i: lit is not None and lit.pol and lit.kind == "truth" and lit.atom in ("*" + name, name + "[0]"), start=L.header)
+            if uses_search and not (okz and cutz):
+                if "nul" not in seen_k1:
+                    seen_k1.add("nul")
+                    ctx.fail("K1", "comment line recognised by its first non-blank character", st.where,
+                             "`strchr(%s, *%s)` is taken without `*%s != 0`: for a line of blanks only the cursor stands on the terminating NUL, which strchr() "
+                             "finds at the end of every set - the blank line is recorded as a comment line of the next entry" % (comment_param, name, name),
+                             key="nul-is-member")
+                continue
             ctx.ok("K1", inst, st.where, "every path to this statement carries `*%s in %s`" % (name, comment_param))
             continue
         kinds = set()
